@@ -22,8 +22,9 @@ import (
 // C15 — SCRAM authenticates the server.
 
 type c15Case struct {
-	Reuse   bool  `json:"reuse,omitempty"` // the Auth object already completed a conforming exchange on an earlier connection
-	Variant int   `json:"variant"`         // 0 SHA-1, 1 SHA-256, 2 SHA-1-PLUS, 3 SHA-256-PLUS
+	Hist    int   `json:"hist,omitempty"` // 0 fresh Auth object; 1 it already completed a conforming exchange on an earlier connection; 2 it went through an earlier exchange that is itself explored over the alphabet (and may have been aborted)
+	Variant int   `json:"variant"`        // 0 SHA-1, 1 SHA-256, 2 SHA-1-PLUS, 3 SHA-256-PLUS
+	MaxLen  int   `json:"maxlen"`
 	Prefix  []int `json:"choices"`
 }
 
@@ -183,9 +184,16 @@ func (s *c15Server) emit(sym int) (challenge []byte, code int) {
 	case symFirstForeignNonce:
 		n := "foreignnonce"
 		if len(s.cnonce) > 4 {
-			n = s.cnonce[:len(s.cnonce)-3] // truncated
+			// truncated, then continued with a character that differs from the client's own (the client nonce
+			// is random: a fixed continuation would extend it once in 64^3 executions)
+			k := len(s.cnonce) - 3
+			x := "A"
+			if s.cnonce[k] == 'A' {
+				x = "B"
+			}
+			n = s.cnonce[:k] + x
 		}
-		sf := "r=" + n + "XYZ9,s=" + b64(c15Salt) + ",i=64"
+		sf := "r=" + n + "YZ9,s=" + b64(c15Salt) + ",i=64"
 		// a client that (wrongly) answers this is then offered the genuine signature over that exchange
 		s.serverFirstSent, s.firstAnswered, s.validSig, s.firstExtends = sf, false, nil, false
 		return []byte(sf), 334
@@ -258,10 +266,10 @@ func (s *c15Server) describe() string {
 }
 
 func c15Exec(r *vf.Run, variant, maxLen int, c *vf.Chooser) (keys, whats []string, desc string) {
-	return c15ExecR(r, variant, maxLen, false, c)
+	return c15ExecR(r, variant, maxLen, 0, c)
 }
 
-func c15ExecR(r *vf.Run, variant, maxLen int, reuse bool, c *vf.Chooser) (keys, whats []string, desc string) {
+func c15ExecR(r *vf.Run, variant, maxLen int, hist int, c *vf.Chooser) (keys, whats []string, desc string) {
 	add := func(k, w string) { keys = append(keys, k); whats = append(whats, w) }
 	srv := &c15Server{c: c, variant: variant, maxLen: maxLen, lastWasFinal: -1, cbData: []byte("uniq-12bytes")}
 	var shared smtp.Auth
@@ -276,7 +284,23 @@ func c15ExecR(r *vf.Run, variant, maxLen int, reuse bool, c *vf.Chooser) (keys, 
 	default:
 		shared = smtp.ScramSHA256PlusAuth(c15User, c15Pass, st0)
 	}
-	if reuse {
+	histDesc := ""
+	if hist == 2 {
+		// connection 1: an exchange explored over the same alphabet (it may fail or be aborted at any point);
+		// whatever genuine server signature it produced is replay material for connection 2
+		pre := &c15Server{c: c, variant: variant, maxLen: maxLen, lastWasFinal: -1, cbData: srv.cbData}
+		var preErr error
+		if p, w := vf.Guard(func() { preErr = c15Drive(r, pre, shared, maxLen) }); p {
+			add("panic/"+vf.PanicSite(w), w)
+			return
+		}
+		histDesc = fmt.Sprintf("[earlier exchange with the same Auth object: %s ⇒ %v] ", pre.describe(), preErr != nil)
+		srv.prevSig = pre.validSig
+		if srv.prevSig == nil {
+			srv.prevSig = pre.prevSig
+		}
+	}
+	if hist == 1 {
 		// connection 1: a conforming exchange (all default choices) with the same Auth object; its genuine
 		// server signature becomes replay material for connection 2
 		pre := &c15Server{c: vf.NewChooser(nil), variant: variant, maxLen: 8, lastWasFinal: -1, cbData: srv.cbData}
@@ -291,7 +315,7 @@ func c15ExecR(r *vf.Run, variant, maxLen int, reuse bool, c *vf.Chooser) (keys, 
 	var pw string
 	var transcript []refsmtp.Exchange
 	pan, pw = vf.Guard(func() { authErr, transcript = c15DriveT(r, srv, shared, maxLen) })
-	desc = srv.describe()
+	desc = histDesc + srv.describe()
 	if pan {
 		add("panic/"+vf.PanicSite(pw), pw)
 		return
@@ -420,18 +444,23 @@ func init() {
 	vf.Register(&vf.Check{
 		ID: "C15", Title: "SCRAM authenticates the server",
 		Run: func(r *vf.Run) {
-			r.SetRule("every server message sequence up to length L over the 11-symbol alphabet {valid server-first, server-first with foreign/truncated nonce, malformed server-first, valid server-final (genuine signature over whatever exchange is running), server-final of another exchange/key, server-final with valid prefix and tampered tail, server-final over empty state, empty challenge, junk, 235, 535}, chosen on the fly after each client message, through smtp.Client.Auth on the synchronous connection, for SCRAM-SHA-1/-256 and both PLUS variants, with a fresh Auth object and with an Auth object that already completed a conforming exchange on an earlier connection (whose genuine server signature the server may replay); reference automaton decides which successes are legitimate; distinct by (variant, sequence)")
+			r.SetRule("every server message sequence up to length L over the 11-symbol alphabet {valid server-first, server-first with foreign/truncated nonce, malformed server-first, valid server-final (genuine signature over whatever exchange is running), server-final of another exchange/key, server-final with valid prefix and tampered tail, server-final over empty state, empty challenge, junk, 235, 535}, chosen on the fly after each client message, through smtp.Client.Auth on the synchronous connection, for SCRAM-SHA-1/-256 and both PLUS variants, with a fresh Auth object, with an Auth object that already completed a conforming exchange on an earlier connection (whose genuine server signature the server may replay), and with an Auth object that went through an earlier exchange which is itself explored over the alphabet (so it may have failed or been aborted at any point; two exchanges of up to L-2 server messages each); reference automaton decides which successes are legitimate; distinct by (variant, sequence)")
 			r.Assume("PLUS variants run over a fabricated TLS 1.2 connection state (tls-unique); the real handshake is covered by C14", "password/user are ASCII")
-			maxLen := 5
+			maxLen0 := 5
 			if r.Thorough {
-				maxLen = 7
+				maxLen0 = 7
 			}
-			r.Extra("max_sequence_length", maxLen)
-			for vv := 0; vv < 8; vv++ {
-				v, reuse := vv%4, vv >= 4
-				vf.Explore(r, maxLen+1, fmt.Sprintf("C15 %s reuse=%v", c15Variants[v], reuse), func(c *vf.Chooser) {
+			r.Extra("max_sequence_length", maxLen0)
+			r.Extra("max_sequence_length_two_exchange_histories", maxLen0-2)
+			for vv := 0; vv < 12; vv++ {
+				v, reuse := vv%4, vv/4
+				maxLen := maxLen0
+				if reuse == 2 {
+					maxLen = maxLen0 - 2 // per exchange
+				}
+				vf.Explore(r, 2*maxLen+1, fmt.Sprintf("C15 %s history=%v", c15Variants[v], reuse), func(c *vf.Chooser) {
 					keys, whats, desc := c15ExecR(r, v, maxLen, reuse, c)
-					if reuse {
+					if reuse == 1 {
 						desc = "[Auth object reused after a conforming exchange on an earlier connection] " + desc
 					}
 					r.TraceValidated()
@@ -441,10 +470,10 @@ func init() {
 					} else {
 						r.Outcome("unsound")
 					}
-					if r.NSamples() < 6 && len(c.Picks) == maxLen {
+					if r.NSamples() < 6 && len(c.Picks) >= maxLen {
 						r.Sample(map[string]interface{}{"variant": c15Variants[v], "server_messages": desc})
 					}
-					kase := c15Case{Variant: v, Reuse: reuse, Prefix: append([]int{}, c.Picks...)}
+					kase := c15Case{Variant: v, Hist: reuse, MaxLen: maxLen, Prefix: append([]int{}, c.Picks...)}
 					for i, k := range keys {
 						k := k
 						r.Violation(k, whats[i], kase, func() string {
@@ -466,7 +495,7 @@ func init() {
 				r.HarnessError("bad case: %v", err)
 				return
 			}
-			keys, whats, desc := c15ExecR(r, k.Variant, 7, k.Reuse, vf.NewChooser(k.Prefix))
+			keys, whats, desc := c15ExecR(r, k.Variant, k.MaxLen, k.Hist, vf.NewChooser(k.Prefix))
 			r.Eval(1, true)
 			fmt.Printf("  %s server messages: %s\n", c15Variants[k.Variant], desc)
 			for i, key := range keys {
